@@ -121,7 +121,7 @@ pub fn run(case: &SeqCase, strict: Strictness, probe_capacity: bool) -> SeqOutco
     payload::set_current_ledger(None);
     match r {
         Ok(mut o) => { o.ledger = ledger.all(); o.ledger_corrupt = ledger.corrupt(); o },
-        Err(end) => SeqOutcome { obs: vec![format!("ABNORMAL END: {:?}", match &end { EndState::Stall { .. } => "stall".to_string(), EndState::Budget => "budget".into(), EndState::Panicked { msg, .. } => format!("panic: {msg}"), EndState::Completed => "?".into() })],
+        Err(end) => SeqOutcome { obs: vec![format!("ABNORMAL END: {:?}", match &end { EndState::Stall { .. } => "stall".to_string(), EndState::Budget => "budget".into(), EndState::Blocked { .. } => "blocked".into(), EndState::Panicked { msg, .. } => format!("panic: {msg}"), EndState::Completed => "?".into() })],
                                  violation: None, skipped: 0, rejected: 0, reserved_sent: 0, reserved_cancelled: 0, laps: 0, recycled_after_leftovers: false, ledger: vec![], ledger_corrupt: 0, accepted_vals: vec![], delivered_vals: vec![], end },
     }
 }
@@ -444,6 +444,9 @@ fn end_verdict(k: &str, o: &SeqOutcome) -> Option<Verdict> {
     match &o.end {
         EndState::Completed => None,
         EndState::Budget => Some(Verdict::Inconclusive("step-budget".into())),
+        // single-threaded histories never call an operation documented to wait at a point where it would: a call that never returns blocks inside the channel
+        EndState::Blocked { .. } if !k.starts_with("multi.arc") => Some(Verdict::Violation { signature: format!("{k}/blocked-instead-of-returning"), detail: format!("a call of a single-threaded history never returned (no scheduling point for 8 s): the channel blocks the caller instead of answering; {}", o.obs.join(" | ")) }),
+        EndState::Blocked { .. } => Some(Verdict::Inconclusive("blocked-in-uninstrumented-wait".into())),
         EndState::Stall { .. } => Some(Verdict::Violation { signature: format!("{k}/stall"), detail: format!("a single-threaded history made the channel spin for ever on an operation nobody will ever let succeed; {}", o.obs.join(" | ")) }),
         EndState::Panicked { msg, .. } => Some(Verdict::Violation { signature: format!("{k}/panic"), detail: format!("the channel panicked: {msg}") }),
     }
